@@ -266,6 +266,18 @@ def r10_7(ctx, rep):
     gettext_split_rule(ctx, rep, "R10.7")
 
 
+@SPEC.rule(
+    "R10.8",
+    "`top-level input` means top level: every leaf symbol registered by flatten_symbols under a non-empty instance prefix has had "
+    "'input' and 'output' removed from its prefixes on every path (elementary and derived-type branches alike), and the removal is "
+    "guarded by the non-empty prefix — an `input Voltage u` inside a component would otherwise be classified as a model input "
+    "and a nested output would be listed among the outputs",
+)
+def r10_8(ctx, rep):
+    from .c07 import io_stripping
+    io_stripping(ctx, rep, "R10.8")
+
+
 # -- seeded variants ---------------------------------------------------------
 from ._mut import delete_stmt_where, replace_in_func  # noqa: E402
 
